@@ -186,14 +186,14 @@ def c04_scenarios(tier, seed):
     else:
         paths = ["a", "ab", "b", "d/a", "d/ab", "e"]
         contents = ["x", "y", "xa", "ax", ""]
-        maxlen, reps = 3, 3
+        maxlen, reps = 3, 2
     entries = paths + ["d"]
     fss = []
     for cs in itertools.product(contents, repeat=len(paths)):
         fss.append([{"p": p, "k": "reg", "c": c} for p, c in zip(paths, cs)] + [{"p": "d", "k": "dir", "c": ""}])
     if tier != "quick":
         rnd.shuffle(fss)
-        fss = fss[:400]
+        fss = fss[:200]
         # keep single-content-change neighbours together: add all one-file variations of a few bases
         base = fss[0]
         for i in range(len(paths)):
@@ -203,8 +203,8 @@ def c04_scenarios(tier, seed):
                 fss.append(v)
     lists = perm_lists(entries, maxlen)
     if tier != "quick":
-        lists += [list(t) for t in rnd.sample(list(itertools.permutations(entries, 4)), 200)]
-        lists += [list(t) for t in rnd.sample(list(itertools.product(entries, repeat=5)), 200)]
+        lists += [list(t) for t in rnd.sample(list(itertools.permutations(entries, 4)), 100)]
+        lists += [list(t) for t in rnd.sample(list(itertools.product(entries, repeat=5)), 100)]
     return fss, lists, reps
 
 
